@@ -1551,6 +1551,124 @@ end DpapiNg.Gen
     return out
 
 
+# ---------------------------------------------------------------------------------------------
+# Function layouts: a module-level function `def f(params): <locals>; return b"".join([...])` (ace_to_bytes, acl_to_bytes) is
+# translated into a `List Layout.Item` over its parameters: `x = g(param)` is the bytes-valued local `call:g:param`,
+# `x = b"".join(param)` is `join:param`, `len(param)` of a list parameter is the integer `count:param`.
+def FL(name, props, file, func, model):
+    return dict(name=name, props=props, file=file, func=func, kind="flayout", loc=("flayout",), model=model,
+                imports=["Proofs.Layout"], typ="List Layout.Item")
+
+
+KERNELS += [
+    FL("LayoutAce", ["C08"], "_security_descriptor.py", "ace_to_bytes", "SecDesc.aceLayout"),
+    FL("LayoutAcl", ["C08"], "_security_descriptor.py", "acl_to_bytes", "SecDesc.aclLayout"),
+]
+
+
+def flayout_items(fn):
+    body = [st for st in fn.body if not (isinstance(st, ast.Expr) and isinstance(st.value, ast.Constant))]
+    params = {a.arg: ast.unparse(a.annotation) if a.annotation is not None else "" for a in fn.args.args}
+    locs = {}
+    for st in body[:-1]:
+        if not (isinstance(st, ast.Assign) and len(st.targets) == 1 and isinstance(st.targets[0], ast.Name) and isinstance(st.value, ast.Call)):
+            raise Unsupported(f"statement before the join: {ast.unparse(st)[:60]}")
+        v = st.value
+        if isinstance(v.func, ast.Name) and len(v.args) == 1 and not v.keywords and isinstance(v.args[0], ast.Name) and v.args[0].id in params:
+            locs[st.targets[0].id] = f"call:{v.func.id}:{v.args[0].id}"
+        elif ast.unparse(v.func) == "b''.join" and len(v.args) == 1 and isinstance(v.args[0], ast.Name) and v.args[0].id in params:
+            locs[st.targets[0].id] = f"join:{v.args[0].id}"
+        else:
+            raise Unsupported(f"local {ast.unparse(st)[:60]}")
+    ret = body[-1]
+    if not (isinstance(ret, ast.Return) and isinstance(ret.value, ast.Call) and ast.unparse(ret.value.func) == "b''.join"
+            and len(ret.value.args) == 1 and isinstance(ret.value.args[0], ast.List)):
+        raise Unsupported("function is not `return b''.join([...])`")
+
+    def width(call):
+        kws = {k.arg: k.value for k in call.keywords}
+        if len(call.args) == 1 and set(kws) == {"byteorder"} and isinstance(kws["byteorder"], ast.Constant) and kws["byteorder"].value == "little" \
+                and isinstance(call.args[0], ast.Constant) and isinstance(call.args[0].value, int):
+            return call.args[0].value
+        raise Unsupported(f"to_bytes form {ast.unparse(call)[:60]}")
+
+    def bytes_ref(node):
+        if isinstance(node, ast.Name) and node.id in locs:
+            return locs[node.id]
+        if isinstance(node, ast.Name) and node.id in params and "bytes" in params[node.id] and "List" not in params[node.id]:
+            return node.id
+        raise Unsupported(f"bytes reference {ast.unparse(node)[:40]}")
+
+    def len_arg(node):
+        if isinstance(node, ast.Call) and ast.unparse(node.func) == "len" and len(node.args) == 1 and not node.keywords:
+            return node.args[0]
+        return None
+    items = []
+    for e in ret.value.args[0].elts:
+        if isinstance(e, ast.Constant) and isinstance(e.value, bytes):
+            items.append(".const [" + ", ".join(str(b) for b in e.value) + "]")
+        elif isinstance(e, ast.Call) and isinstance(e.func, ast.Attribute) and e.func.attr == "to_bytes":
+            w = width(e)
+            tgt = e.func.value
+            la = len_arg(tgt)
+            if la is not None:
+                if isinstance(la, ast.Name) and la.id in params and "List" in params[la.id]:
+                    items.append(f'.int "count:{la.id}" {w}')
+                else:
+                    items.append(f'.lenOf "{bytes_ref(la)}" {w}')
+            elif isinstance(tgt, ast.BinOp) and isinstance(tgt.op, ast.Add) and isinstance(tgt.left, ast.Constant) and isinstance(tgt.left.value, int) \
+                    and tgt.left.value >= 0 and len_arg(tgt.right) is not None:
+                items.append(f'.lenPlus {tgt.left.value} "{bytes_ref(len_arg(tgt.right))}" {w}')
+            elif isinstance(tgt, ast.Name) and tgt.id in params and params[tgt.id] == "int":
+                items.append(f'.int "{tgt.id}" {w}')
+            else:
+                raise Unsupported(f"integer item {ast.unparse(tgt)[:50]}")
+        else:
+            items.append(f'.bytes "{bytes_ref(e)}"')
+    return items
+
+
+def generate_flayout(k: dict) -> dict:
+    path = os.path.join(SRC, k["file"])
+    out = {"name": k["name"], "file": k["file"], "func": k["func"]}
+    try:
+        tree = ast.parse(open(path).read())
+        fn = find_function(tree, k["func"])
+        out["line"] = fn.lineno
+        items = flayout_items(fn)
+        out["python"] = f"{k['func']}: b''.join of {len(items)} items"
+    except (Unsupported, OSError, SyntaxError, ValueError, LookupError) as e:
+        out["status"] = "unsupported"
+        out["reason"] = f"{type(e).__name__}: {e}"
+        p = os.path.join(GEN_DIR, k["name"] + ".lean")
+        if os.path.exists(p):
+            os.remove(p)
+        return out
+    name = k["name"]
+    body = "[" + ", ".join(items) + "]"
+    lean = f"""-- GENERATED by harness/extract.py from src/dpapi_ng/{k['file']}:{out['line']} ({k['func']}) — do not edit.
+import DpapiNg.Proofs.Layout
+namespace DpapiNg.Gen
+open DpapiNg DpapiNg.Layout
+
+def {name} : List Item :=
+  {body}
+
+theorem {name}_eq : {name} = {k['model']} := by
+  decide
+
+end DpapiNg.Gen
+"""
+    os.makedirs(GEN_DIR, exist_ok=True)
+    p = os.path.join(GEN_DIR, name + ".lean")
+    old = open(p).read() if os.path.exists(p) else None
+    if old != lean:
+        with open(p, "w") as f:
+            f.write(lean)
+    out.update(status="generated", lean_path=p, lean_def=body, module=f"DpapiNg.Gen.{name}", sha=hashlib.sha256(lean.encode()).hexdigest()[:16])
+    return out
+
+
 def register(k: dict) -> None:
     KERNELS.append(k)
 
@@ -1573,6 +1691,8 @@ def generate(k: dict) -> dict:
         return generate_wprog(k)
     if k.get("kind") == "rprog":
         return generate_rprog(k)
+    if k.get("kind") == "flayout":
+        return generate_flayout(k)
     path = os.path.join(SRC, k["file"])
     out = {"name": k["name"], "file": k["file"], "func": k["func"]}
     try:
